@@ -7,5 +7,8 @@ ActsC20 == {"New", "NewLike", "Store", "SetItem", "SetItemFxp", "GetItem", "Ctor
 ActsC20Neg == (ActsC20 \ {"Like"}) \cup {"LikeShallow"}
 ActsC04 == {"New1", "Store", "SetItem", "SetItemFxp", "GetItem", "CtorLike", "Reset", "BinOp", "BinOpOut", "Resize", "SetCfg", "Assign"}
 ActsC02 == {"New1", "Store", "SetItem", "GetItem", "CtorLike", "Like", "DeepCopy", "Resize", "BinOp", "Neg", "Assign", "SetCfg"}
+\* the extension instance: the rest of C20's list of deriving operations (bitwise, expanding shifts, NumPy reductions, constants,
+\* in-place operators, raw stores) together with the mutations that expose sharing
+ActsExt == {"New1", "GetItem", "SetItem", "BitOp", "BitMask", "ShiftExpand", "Reduce", "BinOpConst", "IOp", "SetRaw", "BinOpSub", "SetCfg"}
 ActsAll == ActsC02 \cup {"CopyShallow", "Reset", "SetCfgBad", "Drop"}
 =============================================================================
